@@ -411,6 +411,81 @@ fn img_hash(b: &[u8]) -> u64 {
     d.finish().0
 }
 
+/// The subject of a world: compiled circuit, its fault-free reference export and the O2 verdict
+/// on it. Computed once per (program, options, keys) and case: a sweep runs tens of thousands of
+/// worlds on one subject. The cache is cleared at the start of every case, so a case's result
+/// never depends on which cases the worker ran before.
+#[derive(Clone, Default)]
+struct Subject {
+    circuit: Option<Circuit>,
+    ref_bytes: Option<Vec<u8>>,
+    expect_output_is_input: bool,
+    findings: Vec<Finding>,
+    counters: BTreeMap<String, u64>,
+    executions: u64,
+    fail_summary: Option<String>,
+}
+
+static SUBJECT_CACHE: std::sync::Mutex<Option<(String, Subject)>> = std::sync::Mutex::new(None);
+
+pub fn clear_subject_cache() {
+    *SUBJECT_CACHE.lock().unwrap_or_else(|e| e.into_inner()) = None;
+}
+
+fn prepared_subject(prog: &ProgSpec, dedup: bool, keys: Keys, seedtag: u64) -> Subject {
+    let key = format!("{}|{}|{}|{}|{}", dedup, keys.k0, keys.k1, keys.drift, prog.src);
+    if let Some((k, s)) = SUBJECT_CACHE.lock().unwrap_or_else(|e| e.into_inner()).as_ref() {
+        if *k == key {
+            let mut hit = s.clone();
+            hit.executions = 0;
+            return hit;
+        }
+    }
+    let mut obs = Obs::default();
+    let mut subj = Subject::default();
+    let refpath = seams::sim_path("reference.txt");
+    match compile_ssa(prog, dedup) {
+        Err(e) => {
+            bump(&mut obs.counters, "subject_did_not_compile");
+            subj.fail_summary = Some(format!("subject did not compile: {e}"));
+        }
+        Ok(c) => {
+            let total_in: usize = c.input_gates.iter().sum();
+            let expect_output_is_input = c.output_gates[PANIC_RESULT_SIZE_IN_BITS..].iter().any(|&o| o < total_in);
+            subj.expect_output_is_input = expect_output_is_input;
+            // fault-free reference export (O2)
+            seams::install_plan(Plan::default());
+            let _ = seams::take_fired();
+            match do_export(&c, &prog.src, &refpath, false) {
+                ExportRes::Ok => {
+                    obs.executions += 1;
+                    if expect_output_is_input {
+                        obs.findings.push(finding("export_accepted_input_as_output", "", "export succeeded although a non-panic output is an input wire".into()));
+                    }
+                    let bytes = seams::disk_get("/SIMDISK/reference.txt").unwrap_or_default();
+                    check_reference(&c, &bytes, &mut obs, seedtag);
+                    subj.ref_bytes = Some(bytes);
+                }
+                ExportRes::OutputIsInput => {
+                    bump(&mut obs.counters, "export_output_is_input");
+                    if !expect_output_is_input {
+                        obs.findings.push(finding("export_rejected_valid_circuit", "", "OutputWireIsInput although no non-panic output is an input wire".into()));
+                    }
+                }
+                ExportRes::Io => obs.findings.push(finding("export_failed_without_fault", "", "fault-free export returned an I/O error".into())),
+                ExportRes::OtherErr(e) => obs.findings.push(finding("export_failed_without_fault", "", format!("fault-free export returned {e}"))),
+                ExportRes::Panic(m) => obs.findings.push(finding("export_panicked", &panic_site(&m), format!("fault-free export panicked: {m}"))),
+            }
+            subj.circuit = Some(c);
+        }
+    }
+    subj.findings = obs.findings;
+    subj.counters = obs.counters;
+    subj.executions = obs.executions;
+    *SUBJECT_CACHE.lock().unwrap_or_else(|e| e.into_inner()) = Some((key, subj.clone()));
+    subj
+}
+
 /// Run one world inside the current (party) thread.
 fn run_world_inner(w: &World) -> Obs {
     let mut obs = Obs::default();
@@ -426,40 +501,19 @@ fn run_world_inner(w: &World) -> Obs {
     let mut expect_output_is_input = false;
 
     if let Some(prog) = &w.program {
-        match compile_ssa(prog, w.dedup) {
-            Err(e) => {
-                bump(&mut obs.counters, "subject_did_not_compile");
-                obs.summary = format!("subject did not compile: {e}");
-                return obs;
-            }
-            Ok(c) => {
-                let total_in: usize = c.input_gates.iter().sum();
-                expect_output_is_input = c.output_gates[PANIC_RESULT_SIZE_IN_BITS..].iter().any(|&o| o < total_in);
-                // fault-free reference export (O2)
-                let _ = seams::take_fired();
-                match do_export(&c, &prog.src, &refpath, false) {
-                    ExportRes::Ok => {
-                        obs.executions += 1;
-                        if expect_output_is_input {
-                            obs.findings.push(finding("export_accepted_input_as_output", "", "export succeeded although a non-panic output is an input wire".into()));
-                        }
-                        let bytes = seams::disk_get("/SIMDISK/reference.txt").unwrap_or_default();
-                        check_reference(&c, &bytes, &mut obs, seedtag);
-                        ref_bytes = Some(bytes);
-                    }
-                    ExportRes::OutputIsInput => {
-                        bump(&mut obs.counters, "export_output_is_input");
-                        if !expect_output_is_input {
-                            obs.findings.push(finding("export_rejected_valid_circuit", "", "OutputWireIsInput although no non-panic output is an input wire".into()));
-                        }
-                    }
-                    ExportRes::Io => obs.findings.push(finding("export_failed_without_fault", "", "fault-free export returned an I/O error".into())),
-                    ExportRes::OtherErr(e) => obs.findings.push(finding("export_failed_without_fault", "", format!("fault-free export returned {e}"))),
-                    ExportRes::Panic(m) => obs.findings.push(finding("export_panicked", &panic_site(&m), format!("fault-free export panicked: {m}"))),
-                }
-                circuit = Some(c);
-            }
+        let subj = prepared_subject(prog, w.dedup, w.keys, seedtag);
+        obs.executions += subj.executions;
+        for (k, v) in &subj.counters {
+            *obs.counters.entry(k.clone()).or_insert(0) += v;
         }
+        obs.findings.extend(subj.findings.iter().cloned());
+        if let Some(sum) = &subj.fail_summary {
+            obs.summary = sum.clone();
+            return obs;
+        }
+        circuit = subj.circuit.clone();
+        ref_bytes = subj.ref_bytes.clone();
+        expect_output_is_input = subj.expect_output_is_input;
     }
 
     // ---------------- the path's history: earlier exports / old contents at the same path
@@ -680,6 +734,36 @@ fn run_world_inner(w: &World) -> Obs {
     obs
 }
 
+/// Run a batch of worlds that share their keys inside ONE party thread (a sweep runs tens of
+/// thousands of worlds on one subject; a thread per world would dominate the cost).
+pub fn run_worlds(keys: Keys, worlds: Vec<World>) -> Vec<Obs> {
+    seams::reset_world();
+    let n = worlds.len();
+    let ws = worlds.clone();
+    match run_party(keys, move || {
+        ws.iter()
+            .map(|w| {
+                crate::supervise::announce_world(|| serde_json::to_string(w).unwrap());
+                seams::reset_world();
+                guarded(|| run_world_inner(w)).unwrap_or_else(|m| {
+                    let mut o = Obs::default();
+                    o.findings.push(finding("harness_panicked", &panic_site(&m), format!("world runner panicked: {m}")));
+                    o
+                })
+            })
+            .collect::<Vec<_>>()
+    }) {
+        Ok(v) => v,
+        Err(m) => (0..n)
+            .map(|_| {
+                let mut o = Obs::default();
+                o.findings.push(finding("harness_panicked", &panic_site(&m), format!("world runner panicked: {m}")));
+                o
+            })
+            .collect(),
+    }
+}
+
 pub fn run_world(w: &World) -> Obs {
     crate::supervise::announce_world(|| serde_json::to_string(w).unwrap());
     seams::reset_world();
@@ -709,9 +793,9 @@ pub struct Tier {
 
 pub fn tier(t: &str) -> Tier {
     if t == "thorough" {
-        Tier { sweep: 240, history: 20_000, seeded: 40_000, corrupt: 60_000, text: 40_000, s5: 2_000 }
+        Tier { sweep: 480, history: 100_000, seeded: 200_000, corrupt: 300_000, text: 200_000, s5: 10_000 }
     } else {
-        Tier { sweep: 16, history: 2_000, seeded: 4_000, corrupt: 6_000, text: 4_000, s5: 100 }
+        Tier { sweep: 32, history: 4_000, seeded: 8_000, corrupt: 12_000, text: 8_000, s5: 200 }
     }
 }
 
@@ -1302,9 +1386,16 @@ fn run_sweep(base: &World, acc: &mut Acc) {
         return;
     }
     *acc.counters.entry("sweep_subjects".into()).or_insert(0) += 1;
+    let keys = base.keys;
+    let mut batch: Vec<World> = Vec::new();
     let mut go = |w: World, acc: &mut Acc| {
-        let o = run_world(&w);
-        absorb(&o, &w, acc);
+        batch.push(w);
+        if batch.len() >= 512 {
+            let ws = std::mem::take(&mut batch);
+            for (o, w) in run_worlds(keys, ws.clone()).iter().zip(ws.iter()) {
+                absorb(o, w, acc);
+            }
+        }
     };
     go(base.clone(), acc);
     // the path's history: old contents / an earlier, larger export at the same path
@@ -1408,9 +1499,16 @@ fn run_sweep(base: &World, acc: &mut Acc) {
             go(w, acc);
         }
     }
+    // flush the last partial batch
+    let _ = &mut go;
+    let ws = std::mem::take(&mut batch);
+    for (o, w) in run_worlds(keys, ws.clone()).iter().zip(ws.iter()) {
+        absorb(o, w, acc);
+    }
 }
 
 pub fn run_case(plan: &CasePlan, seed: u64, idx: u64) -> CaseResult {
+    clear_subject_cache();
     let (w, family, p) = make_world(plan, seed, idx);
     let mut acc = Acc {
         executions: 0,
